@@ -83,7 +83,10 @@ def main(args):
                 ctx.output_path, task_id.path, f.task_output_dir(task_id, version)
             )
             dest_task_path.parent.mkdir(parents=True, exist_ok=True)
-            shutil.copytree(src_task_path, dest_task_path)
+            # Symlinks inside a task's output must be restored as symlinks
+            # (following them would change the output, and fails outright if
+            # a link is dangling).
+            shutil.copytree(src_task_path, dest_task_path, symlinks=True)
             if not dest_task_path.is_dir():
                 raise ArchiveFileInvalid().add_extra_context(
                     "Missing copied archived task output for '{}' at version {}.".format(
